@@ -15,14 +15,14 @@ from ..models import tptref as tr
 ID = 'C08'
 RULE = ('reversible chains from all connected symmetric integer matrices: n=3 over {0,1,2} (729 candidates), n=4 over {0,1} '
         '(T: {0,1,2} every 3rd) x all disjoint non-empty (sources,sinks) x populations {given, computed} x containers '
-        '{ndarray,csr,csc,coo,lil} (sparse on every 2nd chain in Q); state=(X,A,B,pops,container); non-trivial = >=1 '
+        '{ndarray (C, Fortran-ordered, transposed view, strided view), csr,csc,coo,lil} (non-C containers on every 2nd chain in Q); state=(X,A,B,pops,container); non-trivial = >=1 '
         'intermediate state carrying non-zero reactive density')
 ASSUMPTIONS = ['tolerance 1e-12 on flux identities (products of O(1) numbers), 1e-9 where committors enter',
                'the probability-vector clause for reactive populations is asserted only when sum(pi q+ q-) > 0; '
                'when every committor is 0 or 1 the reactive density is identically zero and the quantity is undefined (0/0)']
-GUARDS = {'intermediate_flux': 500, 'undefined_density': 100, 'sparse': 500, 'pops_computed': 500, 'multi': 500}
+GUARDS = {'intermediate_flux': 500, 'undefined_density': 100, 'sparse': 500, 'dense_layouts': 200, 'pops_computed': 500, 'multi': 500}
 NSH = {'quick': 48, 'thorough': 192}
-CONTAINERS = ('ndarray', 'csr', 'csc', 'coo', 'lil')
+CONTAINERS = ('ndarray', 'ndarrayF', 'ndarrayT', 'ndarrayS', 'csr', 'csc', 'coo', 'lil')
 
 
 def sym_matrices(n, values):
@@ -54,7 +54,17 @@ def shards(tier, seed):
 
 
 def wrap(T, cont):
-    return T.copy() if cont == 'ndarray' else getattr(sp, cont + '_matrix')(T)
+    if cont == 'ndarray':
+        return T.copy()
+    if cont == 'ndarrayF':
+        return np.asfortranarray(T)
+    if cont == 'ndarrayT':
+        return np.ascontiguousarray(T.T).T            # transposed view (Fortran strides, does not own its data)
+    if cont == 'ndarrayS':
+        base = np.zeros((2 * len(T), 2 * len(T)))
+        base[::2, ::2] = T
+        return base[::2, ::2]                          # non-contiguous strided view
+    return getattr(sp, cont + '_matrix')(T)
 
 
 def check_case(case, ctx, pairs=None):
@@ -65,7 +75,7 @@ def check_case(case, ctx, pairs=None):
     T = X / X.sum(axis=1, keepdims=True)
     pi = X.sum(axis=1) / X.sum()
     M = wrap(T, cont)
-    ctag = 'dense' if cont == 'ndarray' else 'sparse'
+    ctag = 'dense' if cont.startswith('ndarray') else 'sparse'
     before = mr.to_dense(M).copy()
     for A, B in (pairs if pairs is not None else [(case['A'], case['B'])]):
         q = tr.committor_ref(T, A, B)
@@ -75,8 +85,10 @@ def check_case(case, ctx, pairs=None):
             ctx.ev()
             c = dict(case, A=A, B=B, pops_given=given)
             ctx.state((X.tobytes(), n, cont, tuple(A), tuple(B), given), nontrivial=bool(dens.sum() > 1e-12))
-            if cont != 'ndarray':
+            if not cont.startswith('ndarray'):
                 ctx.guard('sparse')
+            elif cont != 'ndarray':
+                ctx.guard('dense_layouts')
             if not given:
                 ctx.guard('pops_computed')
             if len(A) > 1 or len(B) > 1:
@@ -139,7 +151,7 @@ def run_shard(sh, ctx):
         for cont in CONTAINERS:
             if tier == 'quick' and cont != 'ndarray':
                 jj = j // NSH[tier]
-                if jj % 2 or (cont in ('csc', 'coo') and jj % 4):
+                if jj % 2 or (cont in ('csc', 'coo', 'ndarrayS') and jj % 4):
                     continue
             check_case({'X': X.tolist(), 'container': cont}, ctx, pairs=pairs)
         if j % 97 == 0:
